@@ -142,6 +142,26 @@ Theorem C07_render_total_if_in_text :
 Proof. exact render_total_if_in_text. Qed.
 Print Assumptions C07_render_total_if_in_text.
 
+(* the handler chain of cmd/kddp: ONE handler owning the text of the main file receives the diagnostics of
+   all modules. File-selection rule: excerpt iff Clean(err.File) = Clean(file), else header only.
+   Under it every diagnostic whose range lies in the text of the file IT NAMES is printed, whichever
+   module it comes from (clean = filepath.Clean, text_of = file contents: parameters) *)
+Theorem C07_handler_prints_every_in_text_diagnostic :
+  forall (path : Type) (path_eqb : path -> path -> bool) (clean : path -> path) (text_of : path -> list N) slack,
+    (forall a b, path_eqb a b = true -> a = b) -> (forall p, text_of (clean p) = text_of p) ->
+    forall file errfile r, wf_range r -> wf_lines slack (text_of errfile) -> in_text (text_of errfile) r ->
+      handler_ok path path_eqb clean text_of slack file errfile r = true.
+Proof. exact handler_total. Qed.
+Print Assumptions C07_handler_prints_every_in_text_diagnostic.
+
+Theorem C07_unhandled_file_header_only :
+  forall (path : Type) (path_eqb : path -> path -> bool) (clean : path -> path) (text_of : path -> list N) slack file errfile r,
+    handled path path_eqb clean (clean file) errfile = false ->
+    handler_ok path path_eqb clean text_of slack file errfile r = true /\
+    shown_lines path path_eqb clean file errfile r = 0%N.
+Proof. exact unhandled_header_only. Qed.
+Print Assumptions C07_unhandled_file_header_only.
+
 (* the zero Range{} (and End.Line < Start.Line): Start.Line-1 underflows, the loop body never runs:
    no panic, but no excerpt either *)
 Theorem C07_render_degenerate_prints_nothing :
